@@ -321,6 +321,49 @@ example : ∃ s : State, Reach (fun _ t => t + 3) s ∧ ∃ tm, s.pc = .parked (
     tm.fired = none ∧ s.now = tm.armedAt ∧ s.entries ≠ [] :=
   ⟨_, reach_runFrom (Reach.init 10) [.add 0, .start, .boot, .arm] rfl, _, rfl, rfl, rfl, by decide⟩
 
+/-- `fresh_when_clock_moves_only_while_parked`: in every history in which the clock is advanced
+only while the loop is not between obtaining a time and arming with it and no fired timer value is
+waiting (`polite`: time passes while the scheduler is idle — the situation the property's
+"starts … once for every activation instant that the clock reaches" describes, and what the
+harness does outside its forced races), the loop variable `now` is always in step with the clock:
+about to arm ⇒ `now = clock`; parked ⇒ the timer was armed with `now` = clock-at-arming (the
+freshness hypothesis of `prompt_when_parked` / `one_start_per_wake_when_jumping`, so the armed
+deadline *is* the least non-zero `Next`), and a fired timer carries the current clock value.
+Moreover every recorded start then has `w = c`: it happened at a wake whose `now` was the clock
+value of the advance that reached the activation. -/
+theorem fresh_when_clock_moves_only_while_parked (S : Scheds) (t0 : Nat) (h : List Label)
+    (s : State) (hp : polite S (init t0) h = true) (hrun : runFrom S (init t0) h = some s) :
+    (s.pc = .arm → s.now = s.clock) ∧
+    (∀ tm, s.pc = .parked (some tm) → s.now = tm.armedAt ∧ ∀ v, tm.fired = some v → v = s.clock) ∧
+    (∀ id sid a w c, Rec.run id sid a w c ∈ s.log → w = c ∧ a ≤ c) := by
+  have hS0 : Sync (init t0) := by simp [Sync, init]
+  have hS := sync_runFrom h hS0 hp hrun
+  have hE := exactLog_runFrom h hS0 (by intro _ _ _ _ _ hm; simp [init] at hm) hp hrun
+  have hr : Reach S s := reach_iff_history.2 ⟨t0, h, hrun⟩
+  refine ⟨?_, ?_, ?_⟩
+  · intro hpc; simpa [Sync, hpc] using hS
+  · intro tm hpc
+    have := hS
+    simp only [Sync, hpc] at this
+    exact ⟨this.1, this.2⟩
+  · intro id sid a w c hm
+    have hw := hE id sid a w c hm
+    obtain ⟨_, haw, _⟩ := chain_run_facts (reach_invB hr).chain hm
+    exact ⟨hw, by omega⟩
+
+/-- In a polite history the armed deadline is exactly the least non-zero `Next`. -/
+theorem deadline_is_min_next_when_polite (S : Scheds) (t0 : Nat) (h : List Label) (s : State)
+    (hp : polite S (init t0) h = true) (hrun : runFrom S (init t0) h = some s) (tm : Timer)
+    (hpc : s.pc = .parked (some tm)) :
+    ∃ e ∈ s.entries, e.next ≠ 0 ∧ tm.deadline = e.next ∧ ∀ x ∈ s.entries, x.next = 0 ∨ e.next ≤ x.next := by
+  have hr : Reach S s := reach_iff_history.2 ⟨t0, h, hrun⟩
+  obtain ⟨_, _, _, e, he, hnz, hmin, hd, _, _⟩ := reach_timerOK hr (some tm) hpc
+  have hfresh := ((fresh_when_clock_moves_only_while_parked S t0 h s hp hrun).2.1 tm hpc).1
+  exact ⟨e, he, hnz, by omega, hmin⟩
+
+example : polite (fun _ t => t + 3) (init 10)
+    [.add 0, .start, .boot, .arm, .advance 13, .wake, .arm, .advance 20, .wake] = true := by decide
+
 /-! ### no_start_after_remove, no_start_after_stop -/
 
 /-- `no_start_after_remove`: once `Remove(id)` of an issued id has returned, whatever happens
